@@ -188,6 +188,8 @@ func main() {
 			code = determinism(opts)
 		case "min":
 			code = minIdx(opts)
+		case "diverge":
+			code = diverge(opts)
 		case "show":
 			code = show(opts)
 		case "sweep":
